@@ -36,6 +36,7 @@ func (a *Access) rw() string {
 // isFresh: the value is an object allocated in this very function (or a free variable bound to
 // such an object in the enclosing function), i.e. not yet shared.
 func isFresh(v ssa.Value) bool {
+	v = outerBase(v) // the embedded helper struct of a new object is part of the new object
 	for depth := 0; depth < 4; depth++ {
 		switch x := v.(type) {
 		case *ssa.Alloc:
